@@ -89,8 +89,10 @@ def is_ctx_iter_type(s):
     """Type string of an iterator over contexts / (context, x) pairs / adapter vertices in the engine."""
     if not s:
         return False
+    import re
     return ("Iterator<Item = trustfall_core::interpreter::DataContext<" in s
             or "Iterator<Item = (trustfall_core::interpreter::DataContext<" in s
             or ("core::iter::adapters::" in s and "DataContext<" in s)
-            or "Iterator<Item = <AdapterT as trustfall_core::interpreter::Adapter<'query>>::Vertex>" in s
+            # the adapter's own vertex iterator, under whatever lifetime name rustc prints ('query, '_, 'a)
+            or re.search(r"Iterator<Item = <\w+ as trustfall_core::interpreter::Adapter<'\w+>>::Vertex>", s) is not None
             or "Iterator<Item = Vertex>" in s)
